@@ -304,6 +304,10 @@ def rand_key(rng, forbid=("NOTES",), allow_meta=True):
         k = "".join(rng.choice(KEY_CHARS) for _ in range(n))
         if allow_meta and rng.random() < 0.15:
             k += rng.choice([":", ";", "\\", "//", " ", "猫"]) + rng.choice(KEY_CHARS)
+        if allow_meta and rng.random() < 0.12:
+            # characters that mean something to format strings, patterns and shells - and nothing to MSD
+            k = rng.choice(["A{B}", "X{}", "K{0}", "A{{B}}", "P%S", "100%", "K[1]", "A*", "Q?", "K.1", "A-B", "(X)", "$V", "^K", "A|B", "K+", "IT'S",
+                            'Q"T', "K=V", "K,L", "K&L", "~K", "@K", "`K`", "!K", "<K>"]) + rng.choice(["", "", rng.choice(KEY_CHARS)])
         if allow_meta and rng.random() < 0.1:
             # blanks at either end belong to the key (" K", "TITLE ", "X\t")
             k = rng.choice([" " + k, k + " ", k + "\t", "  " + k + " ", "TITLE ", " VERSION", "NOTES "])
